@@ -278,6 +278,10 @@ def snapshot(obj):
     return ('other', repr(obj))
 
 
+CODEC_OF = {'ber': 'BER', 'ber-indef': 'BER-indef', 'ber-chunked': 'BER-chunk', 'ber-chunked-spec': 'BER-chunk', 'cer': 'CER',
+            'cer-spec': 'CER', 'der': 'DER', 'der-spec': 'DER'}
+
+
 def chk_purity(T, v, M, rng):
     """C12: codec calls change neither the value encoded nor the guiding type; results share no mutable state
     with the type or with each other; same outcome alone, repeated, or interleaved."""
@@ -291,6 +295,7 @@ def chk_purity(T, v, M, rng):
         return [], 0
     s_spec0, s_val0 = snapshot(spec), snapshot(val)
     d0 = e
+    want_ref = x690.norm(T, v)
     # 1. encoding leaves the value and its type alone
     derived0 = snapshot(spec.clone())
     for name, f in (('ber', lambda: be.encode(val)), ('ber-indef', lambda: be.encode(val, defMode=False)),
@@ -301,9 +306,21 @@ def chk_purity(T, v, M, rng):
                     ('der-spec', lambda: de.encode(bridge.to_native_py(T, v), asn1Spec=spec))):
         n += 1
         try:
-            f()
+            eb = f()
         except Exception:
             continue
+        # the outcome of a call does not depend on the calls before it: whatever came first in this history, the bytes
+        # still denote the value (read by the independent reader)
+        try:
+            got_, rest_ = x690.decode(T, eb)
+            if got_ != want_ref or rest_:
+                out.append(fail('purity', T, v, 'encoding (%s) after other calls denotes another value' % name, enc=eb,
+                                codec=CODEC_OF.get(name)))
+        except x690.Malformed as ex:
+            out.append(fail('purity', T, v, 'encoding (%s) after other calls is not a valid encoding: %s' % (name, ex), enc=eb,
+                            codec=CODEC_OF.get(name)))
+        except Exception:
+            pass
         if snapshot(spec) != s_spec0:
             out.append(fail('purity', T, v, 'encoding (%s) changed the type object' % name))
         if snapshot(spec.clone()) != derived0:
